@@ -136,3 +136,9 @@ kd("shape6::start_with_contract", ["C17", "C09"], clause="six fields reach six s
 kd("remote::update_contract", ["C17", "C08"], clause="remote proxy: Target is the remote type; its other fields untouched", bound=FAM)
 kd("remote::keyframe_from_contract", ["C17"], clause="keyframe_from reads the remote value", bound=FAM)
 kd("canary::canary_must_fail", ["C17", "C09"], kind="canary")
+
+GL = ("glam::verif_glam", "mina_core", "core/src/verif_glam.rs")
+for n in ("vec2", "dvec2", "ivec2", "uvec2", "i64vec2", "u64vec2", "vec3", "dvec3", "ivec3", "uvec3", "i64vec3", "u64vec3", "dvec4", "ivec4", "uvec4", "i64vec4", "u64vec4"):
+    k("%s_componentwise" % n, *GL, ["C14"], "contract", function="<glam::%s as Lerp>::lerp" % n, solver="cvc5",
+      clause="every component of the result is the scalar lerp of the corresponding components (bit-for-bit), all x in [0,1]")
+    K[-1]["features"] = "glam"
